@@ -314,9 +314,13 @@ def rand_behaviour(rng, idx, gloss, cls, force=None):
         b.hyps = sorted(set(b.hyps[:-1] + ["Tridimensional"]), key=HYP_ORDER.index)
     used = set()
     if force:
+        # the library compiled in every run: a common block read through the <f>_ fallback and a specialised one
         b.unit_system = True
-        used.add("EquivalentPlasticStrain")
+        b.hyps = ["PlaneStrain", "Tridimensional"]
+        used.update(["EquivalentPlasticStrain", "Porosity"])
     spec_h = rng.choice(b.hyps) if len(b.hyps) > 1 and rng.random() < 0.6 else None
+    if force:
+        spec_h = "PlaneStrain"
 
     def mk(group, names, types, tensor=False, arr=True, hyp_ok=True):
         out = []
@@ -350,6 +354,9 @@ def rand_behaviour(rng, idx, gloss, cls, force=None):
         gv = Var("gps", "real", 1, "EquivalentPlasticStrain", "glossary")     # physical bounds inherited from the glossary
         gv.allow_phys = False
         b.svs.append(gv)
+        zs = Var("zsp", "real", 1, hyp="PlaneStrain")
+        zs.forced_bounds = Bnd("0.25", None)
+        b.svs.append(zs)
         ga = Var("gpo", "real", 1, "Porosity", "glossary")
         ga.allow_phys = False
         used.add("Porosity")
